@@ -296,7 +296,7 @@ fn read_char_values(
 
     for _ in 0..sample_count {
         let s = read_string_until_nul(src, len)?;
-        let c = s.chars().next().unwrap();
+        let c = s.chars().next().ok_or(DecodeError::InvalidValue)?;
 
         let value = match c {
             MISSING => None,
@@ -324,11 +324,12 @@ fn read_char_array_values(
 
         let value = Value::from(
             s.split(DELIMITER)
-                .map(|t| match t.chars().next().unwrap() {
-                    MISSING => None,
-                    c => Some(c),
+                .map(|t| match t.chars().next() {
+                    Some(MISSING) => Ok(None),
+                    Some(c) => Ok(Some(c)),
+                    None => Err(DecodeError::InvalidValue),
                 })
-                .collect::<Vec<_>>(),
+                .collect::<Result<Vec<_>, _>>()?,
         );
 
         values.push(Some(value));
